@@ -663,7 +663,7 @@ func (b *builder) wireScenario(i int) *scenario {
 	nm := 1 + r.Intn(3)
 	for k := 0; k < nm; k++ {
 		tname := topics[r.Intn(len(topics))]
-		sc.moves = append(sc.moves, leaderMove{after: 1 + r.Intn(8), topic: tname, part: r.Intn(sc.nparts[tname])})
+		sc.moves = append(sc.moves, leaderMove{after: 1 + r.Intn(8), topic: tname, part: r.Intn(sc.nparts[tname]), bounce: i%2 == 1 && k == 0})
 	}
 	// a few faults on the leaders (acknowledgement lost = connection dies after the append; temporary / permanent codes)
 	for _, t := range topics {
@@ -975,28 +975,42 @@ func run(sc *scenario, out *bufio.Writer) {
 	} else if sc.closeAt < 0 && sc.special != "closewin" {
 		deadline := time.Now().Add(sc.timeout + 2*time.Second)
 		for {
+			// accepted messages whose batch has not been attempted yet (from the hook events: PW.Add binds (call, index)
+			// to a batch, PW.Attempt names the batch) — an attempt that dies before it reaches a broker still counts
 			unsent = 0
-			okcalls := map[int]bool{}
+			okcalls := map[string]int{}
 			rmu.Lock()
 			for _, r := range results {
 				if r.code == "ok" || strings.HasPrefix(r.code, "werr") {
-					okcalls[r.call] = true
-				}
-			}
-			rmu.Unlock()
-			f.mu.Lock()
-			for _, calls := range sc.callers {
-				for _, c := range calls {
-					if okcalls[c.id] {
-						for _, m := range c.msgs {
-							if !f.attempted[m.key] {
-								unsent++
+					for ci := range live {
+						for _, lc := range live[ci] {
+							if lc.spec.id == r.call {
+								okcalls[lc.ptr] = len(lc.msgs)
 							}
 						}
 					}
 				}
 			}
-			f.mu.Unlock()
+			rmu.Unlock()
+			batchOf := map[string]string{}
+			attempted := map[string]bool{}
+			for _, e := range kafka.VerifSnapshot() {
+				switch e.Kind {
+				case "PW.Add":
+					batchOf[e.Args[2]+"/"+e.Args[3]] = e.Args[1]
+				case "PW.Attempt":
+					attempted[e.Args[1]] = true
+				case "PW.NewBatch":
+					delete(attempted, e.Args[1]) // the recorder id of a freed batch may be reused
+				}
+			}
+			for ptr, n := range okcalls {
+				for k := 0; k < n; k++ {
+					if b, ok := batchOf[ptr+"/"+strconv.Itoa(k)]; !ok || !attempted[b] {
+						unsent++
+					}
+				}
+			}
 			if unsent == 0 || time.Now().After(deadline) {
 				break
 			}
@@ -1011,6 +1025,51 @@ func run(sc *scenario, out *bufio.Writer) {
 		stuck = true
 	}
 	evs := kafka.VerifStop()
+	if sc.wire > 0 {
+		// Over a real connection the broker cannot know whether its answer arrived: an acknowledgement it sent for an
+		// attempt that the client then saw fail (connection torn down under the multiplexed Transport) is an
+		// acknowledgement lost in transit.  The broker's record of such an attempt is corrected to `lost1` (and a rejection
+		// whose answer did not arrive to `lost0`).
+		keysOf := map[string][]string{} // raw batch id → keys in add order
+		keyAt := map[string]string{}
+		for ci := range live {
+			for _, lc := range live[ci] {
+				for k, m := range lc.spec.msgs {
+					keyAt[lc.ptr+"/"+strconv.Itoa(k)] = m.key
+				}
+			}
+		}
+		for idx := range evs {
+			e := &evs[idx]
+			switch e.Kind {
+			case "PW.NewBatch":
+				delete(keysOf, e.Args[1])
+			case "PW.Add":
+				keysOf[e.Args[1]] = append(keysOf[e.Args[1]], keyAt[e.Args[2]+"/"+e.Args[3]])
+			case "Br.Produce":
+				if e.Args[3] != "acked" && !strings.HasPrefix(e.Args[3], "k") {
+					continue
+				}
+				batch := ""
+				for b, ks := range keysOf {
+					if strings.Join(ks, ",") == e.Args[2] {
+						batch = b
+					}
+				}
+				for j := idx + 1; j < len(evs) && batch != ""; j++ {
+					if evs[j].Kind == "PW.AttemptDone" && evs[j].Args[1] == batch {
+						got := evs[j].Args[3]
+						if e.Args[3] == "acked" && got != "ok" {
+							e.Args[3] = "lost1"
+						} else if e.Args[3] != "acked" && got != e.Args[3] {
+							e.Args[3] = "lost0" // a rejection whose answer did not arrive: nothing applied, transport error
+						}
+						break
+					}
+				}
+			}
+		}
+	}
 	if callersStuck || unsent > 0 || stuck {
 		failedScenarios++
 	}
